@@ -253,7 +253,7 @@ func crashFrame(stderr string) string {
 	for _, line := range strings.Split(stderr, "\n") {
 		line = strings.TrimSpace(line)
 		if strings.HasPrefix(line, "github.com/evanw/esbuild/") && !strings.Contains(line, "/internal/verif") {
-			if i := strings.IndexByte(line, '('); i > 0 {
+			if i := strings.LastIndexByte(line, '('); i > 0 {
 				line = line[:i]
 			}
 			return strings.TrimPrefix(line, "github.com/evanw/esbuild/")
@@ -490,7 +490,7 @@ func (c *ctx) enumFamily(wg *sync.WaitGroup, hdr *enumHeader, stems []stem) {
 	// time budget then still covers every language)
 	rnd := rand.New(rand.NewSource(r.Seed*17 + 3))
 	rnd.Shuffle(len(stems), func(i, j int) { stems[i], stems[j] = stems[j], stems[i] })
-	per := int64(r.Pick(12000, 60000))
+	per := int64(r.Pick(6000, 60000))
 	var cur []stem
 	var curN int64
 	bi := 0
@@ -575,8 +575,8 @@ func (c *ctx) mutTLC() ([]seed, []mutScript) {
 	r.Set("seeds", len(seeds))
 	r.Set("seeds_per_test_file", perFile)
 	r.Logf("mutation: %d seeds, %d distinct token lengths", len(seeds), len(lens))
-	cfgText := fmt.Sprintf("SPECIFICATION Spec\nCONSTANTS\n  SeedLens = {%s}\n  MaxDepth = 6\n  MaxTokens = 400\n  NTok = 40\n  NNest = %d\n  NestDepths = {1, 8, 64, 512}\n  NCorrupt = %d\n  Sample = TRUE\nINVARIANTS TypeOK WellFormed Export\nPROPERTIES ScriptGrows\nCHECK_DEADLOCK FALSE\n",
-		strings.Join(ls, ", "), 16, len(corruptions))
+	cfgText := fmt.Sprintf("SPECIFICATION Spec\nCONSTANTS\n  SeedLens = {%s}\n  MaxDepth = 6\n  MaxTokens = 400\n  NTok = 40\n  NNest = %d\n  NestDepths = {%s}\n  NCorrupt = %d\n  Sample = TRUE\nINVARIANTS TypeOK WellFormed Export\nPROPERTIES ScriptGrows\nCHECK_DEADLOCK FALSE\n",
+		strings.Join(ls, ", "), 16, []string{"1, 4, 32", "1, 8, 64, 256"}[r.Pick(0, 1)], len(corruptions))
 	nJVM := r.Pick(1, 4)
 	walks := r.Pick(100, 1500)
 	var smu sync.Mutex
@@ -633,7 +633,7 @@ func (c *ctx) mutTLC() ([]seed, []mutScript) {
 
 func (c *ctx) mutDispatch(wg *sync.WaitGroup, seeds []seed, scripts []mutScript, alphabets map[string][]string, kinds []nestKind) {
 	r := c.r
-	per := r.Pick(4000, 20000)
+	per := r.Pick(1500, 20000)
 	for lo, bi := 0, 0; lo < len(scripts); lo, bi = lo+per, bi+1 {
 		hi := min(lo+per, len(scripts))
 		in := batchIn{Family: "mut", ID: fmt.Sprintf("m%d", bi), Seeds: seeds, Scripts: scripts[lo:hi], PerScript: r.Pick(2, 3), Alphabets: alphabets, Kinds: kinds,
@@ -730,14 +730,22 @@ func (c *ctx) nestFamily(wg *sync.WaitGroup) []nestKind {
 		}
 	}
 	r.Set("nest_deep_solo_runs", deep)
-	c.submit(wg, batchIn{Family: "nest", ID: "n0", Kinds: hdr.Kinds, NestCases: shallow})
+	// interleave the cases so that every batch holds every depth
+	nb := r.Pick(6, 12)
+	parts := make([][]nestCase, nb)
+	for i, nc := range shallow {
+		parts[i%nb] = append(parts[i%nb], nc)
+	}
+	for i, p := range parts {
+		c.submit(wg, batchIn{Family: "nest", ID: fmt.Sprintf("n%d", i), Kinds: hdr.Kinds, NestCases: p})
+	}
 	return hdr.Kinds
 }
 
 // ---------------------------------------------------------------------------
 
 func Run(r *core.Run) {
-	c := &ctx{r: r, childSem: make(chan struct{}, 2), soloSem: make(chan struct{}, 2), tlcSem: make(chan struct{}, 3),
+	c := &ctx{r: r, childSem: make(chan struct{}, 2), soloSem: make(chan struct{}, 2), tlcSem: make(chan struct{}, 4),
 		byLang: map[string]int64{}, byLoader: map[string]int64{}, byOp: map[string]int64{}, reported: map[string]bool{}, skippedBatches: map[string]int64{},
 		queue: map[string][]batchIn{}, dispatched: map[string]int{}, sampled: map[string]int{}}
 	c.qcond = sync.NewCond(&sync.Mutex{})
@@ -746,7 +754,10 @@ func Run(r *core.Run) {
 		c.fastTmp = d
 		defer os.RemoveAll(d)
 	}
-	c.deadline = time.Now().Add(time.Duration(r.Pick(110, 19*60)) * time.Second)
+	c.deadline = time.Now().Add(time.Duration(r.Pick(85, 18*60)) * time.Second)
+	// the bulk of this check is exploration (enumerated and scripted inputs, no coverage feedback); only the
+	// fault model of part (i) is model checking proper.  The weaker level is claimed for the whole.
+	r.Level = "exploration"
 	if r.Replay != "" {
 		replay(c)
 		return
